@@ -138,7 +138,7 @@ HDR = core.HDR.replace('Import Base Spec.', 'Import Base Spec Sem.')
 
 def run(tier, seed):
     t0 = time.time(); idx, info = flow.prepare()
-    files, notes, cover = f1.build(idx, CFGS, 'msk', spec, per_file=60)
+    files, notes, cover = f1.build(idx, CFGS, 'msk', spec, per_file=60, pid='C15')
     per_fn = 4 if tier == 'quick' else 40
     return f1.run('C15', tier, seed, idx, info, t0, files, notes, cover, HDR, per_fn,
         'one lemma per cmp*/select of every vector type and per operation of the five mask types (x literal index), sse2 + scalar-math + core-simd; SSE2 register masks: exhaustive case analysis over all 2^N (2^2N) mask values in the IEEE instance; correspondence: %d random calls per function with NaN / +-0 / inf lanes' % per_fn,
